@@ -10,6 +10,18 @@ MC_NOTE = ("Trusted base: regex / regex-automata / regex-syntax (versions pinned
            "path length is unbounded.")
 
 CHECKS = {
+    "C01": dict(cat="model_checking", tech="explicit-state BFS of implDFA x referenceDFA x unspecified-clause monitor, all paths",
+                text="For every built expression of the bounded program space whose documented meaning is specified, all reachable states of the product of the implementation's automaton, an independently compiled reference automaton of the documented semantics and the U1-U3 monitor are explored; any state where acceptance differs is a counterexample of unbounded length; every state is replayed through is_match.",
+                ref="DESIGN.md §3 C01, §2.4", note=MC_NOTE + " The reference is three-valued (U1-U5, DESIGN §2.4)."),
+    "C07": dict(cat="model_checking", tech="explicit-state BFS of the product of the implementation's own DFAs of related expressions",
+                text="Algebraic laws between compiled programs, no reference semantics: for every branch site of every built expression the substitution / unrolling family, wrappings of the whole and of sub-sequences, and any() over four construction routes; all reachable tuples of the product of the members' automata.",
+                ref="DESIGN.md §3 C07", note=MC_NOTE),
+    "C08": dict(cat="model_checking", tech="explicit-state BFS of DFA(original) x DFA(prefix.postfix) on canonical paths; replay through Path::strip_prefix",
+                text="For every built expression: Glob::partition; the law is decided on all reachable canonical states of DFA(original) x DFA(prefix followed by postfix) and every such state is replayed through the real Path::strip_prefix and postfix matcher; plus never-rooted, idempotence, suffix text, rebuild equivalence and capture spans.",
+                ref="DESIGN.md §3 C08", note=MC_NOTE),
+    "C18": dict(cat="model_checking", tech="exhaustive short strings + all Unicode scalars; singleton product implDFA x position-in-text",
+                text="Every string up to length L over the meta alphabet, every subset of the metas and every Unicode scalar value: escape, build, text(), self-match, and L(glob) = {s} decided on the product of the implementation's automaton with a position-in-text monitor over all paths.",
+                ref="DESIGN.md §3 C18", note=MC_NOTE),
     "C09": dict(cat="model_checking", tech="explicit-state BFS of implDFA x canonical-ancestor monitor, all paths",
                 text="For every expression of the bounded program space (and small any() combinators) that reports is_exhaustive()=Always, all reachable states of the product of the implementation's compiled automaton with a canonical-path / accepted-proper-ancestor monitor are explored; a non-accepting canonical state beneath an accepted ancestor is a counterexample for all path lengths.",
                 ref="DESIGN.md §3 C09", note=MC_NOTE),
